@@ -256,8 +256,11 @@ def fst_value(v, val, delta):
 
 
 def write_fst(path, items, exponent=-15, blocks=None, use_frame=False, hier="lz4", zlib_values=False,
-              zlib_times=False, zlib_geometry=False, file_type=1, version=b"wellen verif", date=b"today"):
-    """blocks: list of block sizes (numbers of time table entries per value change block); default: one block"""
+              zlib_times=False, zlib_geometry=False, file_type=1, version=b"wellen verif", date=b"today", split=None):
+    """blocks: list of block sizes (numbers of time table entries per value change block); default: one block.
+    split: {block index >= 1: k}: the writer flushed in the middle of the first time step of that block: the first k
+    changes of the step close the previous block, the rest open this one, so the file's time chain lists that time
+    twice.  Returns the file's time chain."""
     vs = all_vars(items)
     handles = {}           # var position -> signal index (0 based)
     sigs = []              # signal index -> var
@@ -275,6 +278,23 @@ def write_fst(path, items, exponent=-15, blocks=None, use_frame=False, hier="lz4
     if blocks is None:
         blocks = [len(times)]
     assert sum(blocks) == len(times) and all(b > 0 for b in blocks)
+    if split:
+        starts, p0 = [], 0
+        for b in blocks:
+            starts.append(p0)
+            p0 += b
+        new_evs, new_blocks = [], list(blocks)
+        for bi in range(len(blocks)):
+            seg = evs[starts[bi]:starts[bi] + blocks[bi]]
+            k = split.get(bi, split.get(str(bi)))
+            if k and bi > 0 and 0 < k < len(seg[0][1]):
+                t, chs = seg[0]
+                new_evs.append((t, chs[:k]))
+                new_blocks[bi - 1] += 1
+                seg = [(t, chs[k:])] + seg[1:]
+            new_evs += seg
+        evs, blocks = new_evs, new_blocks
+        times = [t for t, _ in evs]
     # header
     out.append(0)
     out += be64(329) + be64(times[0]) + be64(times[-1])
@@ -423,6 +443,7 @@ def write_fst(path, items, exponent=-15, blocks=None, use_frame=False, hier="lz4
         out.append(6)
     out += be64(16 + len(c)) + be64(len(h)) + c
     open(path, "wb").write(bytes(out))
+    return times
 
 
 def _scopes(items):
